@@ -469,6 +469,21 @@ Section Final.
     | SUnspec => SUnspec
     end.
 
+  (* a word in a context without field splitting (XCU 2.9.1 assignments, case
+     words): one string; the fields of the list parameters @ and * are joined
+     with the first character of IFS, as in the quoted form of the parameter *
+     (for the parameter @ POSIX leaves this unspecified) *)
+  Definition spec_word_single (w : word) (e : env) : sres str :=
+    match top_or_empty (sem_word false) word_is_empty w e with
+    | SOk pfs e' =>
+        match ifs_value e' with
+        | Some iv => SOk (chars_of (join_with (star_separator iv) pfs)) e'
+        | None => SUnspec
+        end
+    | SErr k => SErr k
+    | SUnspec => SUnspec
+    end.
+
   (* the fields of the words of a command, left to right *)
   Fixpoint spec_words_fields (ws : list word) (e : env) : sres (list str) :=
     match ws with
@@ -610,3 +625,30 @@ with core_word (w : word) : bool :=
 
 Definition scalar_env (e : env) : bool :=
   forallb (fun kv => match snd kv with Scalar _ => true | Array _ => false end) (vars e).
+
+(* ======================================================================== *)
+(* SPEC, part 5: what ${x#p} ${x##p} ${x%p} ${x%%p} remove (XCU 2.6.2), for  *)
+(* patterns of literals, ? and * (XCU 2.13.1/2.13.2)                         *)
+(* ======================================================================== *)
+
+Inductive Matches : list pchar -> str -> Prop :=
+| Matches_nil : Matches [] []
+| Matches_star p s1 s2 : Matches p s2 -> Matches (PNormal 42 :: p) (s1 ++ s2)   (* * : any string *)
+| Matches_any p c s : Matches p s -> Matches (PNormal 63 :: p) (c :: s)         (* ? : any character *)
+| Matches_literal p c s : Matches p s -> Matches (PLiteral c :: p) (c :: s)     (* quoted: itself *)
+| Matches_normal p c s :
+    c <> 42%N -> c <> 63%N -> Matches p s -> Matches (PNormal c :: p) (c :: s).
+
+(* [r] is [v] with the smallest / largest prefix / suffix matching [p] removed;
+   [v] itself when no prefix / suffix matches *)
+Definition TrimSpec (s : trim_side) (l : trim_length) (p : list pchar) (v r : str) : Prop :=
+  let removed k := match s with Prefix => firstn k v | Suffix => skipn (length v - k) v end in
+  let kept k := match s with Prefix => skipn k v | Suffix => firstn (length v - k) v end in
+  ((forall k, k <= length v -> ~ Matches p (removed k)) /\ r = v)
+  \/ exists k, k <= length v /\ Matches p (removed k) /\ r = kept k
+               /\ forall k', k' <= length v -> Matches p (removed k') ->
+                             match l with Shortest => k <= k' | Longest => k' <= k end.
+
+(* ${#x}: the decimal representation of the length *)
+Definition undecimal (s : str) : N := fold_left (fun a d => (10 * a + (d - 48))%N) s 0%N.
+Definition is_digit (d : N) : bool := N.leb 48 d && N.leb d 57.
